@@ -85,15 +85,6 @@ Proof.
   exact (proj1 (forallb_forall _ _) H (a, j, v) (in_idx3 a j v Ha Hj Hv)).
 Qed.
 
-Lemma p1_shifted_sweep : forallb p1_entry_shifted_ok idx3 = true.
-Proof. vm_compute. reflexivity. Qed.
-Lemma p1_table_shifted a j v :
-  (a < 3)%nat -> (j < 6)%nat -> (v < 3)%nat -> p1_entry a j v == p1_shape a (sub_vertex ((j + 5) mod 6) v).
-Proof.
-  intros Ha Hj Hv. apply Qeq_bool_eq.
-  exact (proj1 (forallb_forall _ _) p1_shifted_sweep (a, j, v) (in_idx3 a j v Ha Hj Hv)).
-Qed.
-
 Lemma p1_pou_sweep : forallb p1_pou_ok (idx2 6 3) = true.
 Proof. vm_compute. reflexivity. Qed.
 Lemma p1_partition_of_unity j v :
@@ -122,17 +113,6 @@ Proof.
   rewrite !p1_shape_affine by lia.
   unfold p1_bary_fun, p1_fun, p1_bary_coeff.
   rewrite !(p1_table_correct H) by lia. ring.
-Qed.
-
-(* what the shipped table does instead: on sub-triangle j it reproduces the coarse function of sub-triangle j-1 *)
-Theorem p1_pointwise_shifted :
-  forall (c : nat -> Q) (j : nat) (st : pt), (j < 6)%nat ->
-    p1_bary_fun c j st == p1_fun c (sub_map ((j + 5) mod 6) st).
-Proof.
-  intros c j st Hj. unfold p1_fun at 1, sub_map.
-  rewrite !p1_shape_affine by lia.
-  unfold p1_bary_fun, p1_fun, p1_bary_coeff.
-  rewrite !p1_table_shifted by lia. ring.
 Qed.
 
 (* ---------------- DP0 map ---------------- *)
